@@ -16,7 +16,7 @@ private notion of content.
                             499, the entry at the path stays what it was, and exactly the chunks uploaded before
                             the failing read (they tile the whole reads before the error) are handed to
                             Filer.DeleteChunks.  (Finding uploadReaderToChunks/read-error-treated-as-eof, repaired
-                            in /repo by f7329273: before it EVERY failing body was answered 201 and those chunks
+                            in /repo by c68165d2: before it EVERY failing body was answered 201 and those chunks
                             were committed as the file.)
   failed_body_hidden_by_inline  the excluded class characterised exactly (+ witness): the first read was taken as
                             the inline content, the loop never reads on and never meets the error — the same two
@@ -249,7 +249,7 @@ theorem inline_drops_rest_witness :
   decide
 
 /-! ### MAIN 3: a failing body is reported as failed and nothing is committed
-     (finding uploadReaderToChunks/read-error-treated-as-eof, repaired in /repo by f7329273) -/
+     (finding uploadReaderToChunks/read-error-treated-as-eof, repaired in /repo by c68165d2) -/
 
 /-- the first read (one whole chunk, delivered before the failure) is taken as the inline content: the loop
     stops reading and never meets the error -/
